@@ -195,6 +195,12 @@
             $tw.save();
             G_PHASE = "wrapper";
             let __r1: Rz = $w;
+            let mut __nok = true;
+            if let Some(__f) = Fields::niche(&$o as *const _) {
+                __nok = false;
+                $m.viol(format!("abi/value/{}.{}/bit-pattern-invalid-for-the-rust-type", G_STRUCT, __f),
+                        format!("after {} the field {} of the mirror holds a bit pattern that its declared Rust type does not admit (null in a fn-pointer / reference field, or a bool above 1): Rust reads it as the niche of the struct", $name, __f));
+            }
             let mut __s1: Vec<u64> = Vec::new(); Fields::fb(&$o as *const _, &mut __s1);
             let __b1 = $tw.grab();
             core::ptr::write(&mut $o, __snap);
@@ -204,7 +210,8 @@
             let mut __s2: Vec<u64> = Vec::new(); Fields::fb(&$o as *const _, &mut __s2);
             let __b2 = $tw.grab();
             G_PHASE = "-";
-            $m.judge($name, $cfn, __r1, __r2, &__s1, &__s2, &__b1, &__b2)
+            let __jok = $m.judge($name, $cfn, __r1, __r2, &__s1, &__s2, &__b1, &__b2);
+            __jok && __nok
         }};
     }
     // constructors: the wrapper's value against the documented C initialisation sequence run on a 0x5C-filled slot
